@@ -71,7 +71,7 @@ void Datatype__set_contents_noaddr(struct Datatype* self, int combiner, int ni, 
 #define WF_OLD                                                                                                         \
   (g_old.flags_ >= 0 && g_old.size_ <= VMAX && 0 <= LB_O && LB_O <= UB_O && UB_O <= VMAX && (OLD_DERIVED || (LB_O == 0 && UB_O == SZ_O)))
 #define PRE (vf_exc == 0 && old_type == &g_old && new_type == &g_out && WF_OLD)
-#define NEW_FRAME g_out, g_nd, g_nc, g_nv, g_nh, g_ns, g_ni, g_nhi
+#define NEW_FRAME VF_PT(g_out) /* pointer target: see HOWTO, dfcc havocs pointer lvalues with one shared value */, g_nd, g_nc, g_nv, g_nh, g_ns, g_ni, g_nhi
 /* the result is one of the designated objects; clauses are stated on those objects (a contract that is assumed at a call
  * site must not dereference the pointer it has just havocked) */
 #define ON_RESULT(P)                                                                                                   \
